@@ -807,8 +807,19 @@ def resolve(drv, o, rng_seed):
         return [dict(op="get", name=rng.choice(names))] if names else []
     if k == "touch":
         return [dict(op="touch", name=rng.choice(xmls + ["META-INF/manifest.xml"]))] if xmls else []
+    if k == "addobject":
+        # an embedded object: XML parts in a sub-directory whose base names make Document.get_part treat them as XML parts
+        i = rng.randrange(1, 3)
+        return [dict(op="import", name="Object %d/%s" % (i, b), data=OBJ_XML[b], mt="text/xml") for b in ("content.xml", "styles.xml", "meta.xml")]
+    if k == "editobj":
+        sub = [x for x in xmls if "/" in x]
+        if not sub:
+            return []
+        return [dict(op="edit", name=rng.choice(sub), how="attr", arg="1.%d" % rng.randrange(1, 4))]
     if k == "edit":
-        n = rng.choice([x for x in xmls if "/" not in x] or ["content.xml"])
+        # any XML part of the package: the five main ones and those of embedded objects (class chosen by base name)
+        sub = [x for x in xmls if "/" in x]
+        n = rng.choice(sub) if sub and rng.random() < 0.35 else rng.choice([x for x in xmls if "/" not in x] or ["content.xml"])
         how = {"content.xml": rng.choice(["par", "par", "spaces", "frame", "raw"]), "meta.xml": rng.choice(["title", "subject", "generator"]),
                "styles.xml": "attr", "settings.xml": "attr"}.get(n, "attr")
         arg = None
@@ -880,6 +891,11 @@ def resolve(drv, o, rng_seed):
     raise ValueError(k)
 
 
+OBJ_XML = {
+    "content.xml": '<office:document-content xmlns:office="%s" office:version="1.2"><office:body><office:chart/></office:body></office:document-content>' % NS["office"],
+    "styles.xml": '<office:document-styles xmlns:office="%s" office:version="1.2"><office:styles/></office:document-styles>' % NS["office"],
+    "meta.xml": '<office:document-meta xmlns:office="%s" office:version="1.2"><office:meta/></office:document-meta>' % NS["office"],
+}
 RAW_PARS = [
     '<text:p xmlns:text="%(t)s">a<text:s/><text:span>b</text:span></text:p>',
     '<text:p xmlns:text="%(t)s">x <text:s text:c="2"/>y<text:tab/>z<text:line-break/>w</text:p>',
@@ -888,6 +904,11 @@ RAW_PARS = [
     '<text:p xmlns:text="%(t)s">note<text:note text:note-class="footnote"><text:note-citation>1</text:note-citation><text:note-body><text:p>body<text:s/>x</text:p></text:note-body></text:note>after</text:p>',
     '<text:p xmlns:text="%(t)s">l<text:a xmlns:xlink="http://www.w3.org/1999/xlink" xlink:href="http://x/">ink<text:s/></text:a><text:bookmark text:name="b"/>r</text:p>',
 ]
+OBJ_XML = {
+    "content.xml": '<office:document-content xmlns:office="%s" office:version="1.2"><office:body><office:chart/></office:body></office:document-content>' % NS["office"],
+    "styles.xml": '<office:document-styles xmlns:office="%s" office:version="1.2"><office:styles/></office:document-styles>' % NS["office"],
+    "meta.xml": '<office:document-meta xmlns:office="%s" office:version="1.2"><office:meta/></office:document-meta>' % NS["office"],
+}
 RAW_PARS = [p % dict(t=NS["text"]) for p in RAW_PARS]
 
 
